@@ -156,6 +156,58 @@ func checkC06(c *Ctx, r *Report) {
 	exactStoreRule(c, r)
 	tagNameRule(c, r)
 	accessorTightRule(c, r)
+	fieldEnumerationRule(c, r)
+}
+
+// fieldEnumerationRule (R06j): the writer (normalizeStructInto) and the readers (reifyStruct, validateStruct, through
+// accessField) walk the fields of a struct with the same reflect interface. The index loop (NumField / Field) sees
+// the declared fields only; reflect.VisibleFields adds the fields promoted from embedded structs, FieldByName
+// resolves shadowing — a side that switches sees other fields than its sibling, and an embedded struct is written
+// once and read twice (or the other way round).
+func fieldEnumerationRule(c *Ctx, r *Report) {
+	r.Rule("R06j", "the struct writer and the struct readers enumerate fields with the same reflect interface (NumField/Field on both sides)", 1)
+	apis := map[string]bool{"NumField": true, "Field": true, "VisibleFields": true, "FieldByIndex": true, "FieldByIndexErr": true, "FieldByName": true, "FieldByNameFunc": true}
+	collect := func(names ...string) (map[string]bool, bool) {
+		out := map[string]bool{}
+		found := false
+		for _, n := range names {
+			fn := c.TryFunc("", n)
+			if fn == nil {
+				continue
+			}
+			found = true
+			for _, g := range WithAnon(fn) {
+				for _, ci := range CallsIn(g, false) {
+					name := ""
+					if ci.Common().IsInvoke() {
+						if strings.HasSuffix(ci.Common().Value.Type().String(), "reflect.Type") {
+							name = ci.Common().Method.Name()
+						}
+					} else if f := ci.Common().StaticCallee(); f != nil && f.Pkg != nil && f.Pkg.Pkg.Path() == "reflect" {
+						name = f.Name()
+					}
+					if apis[name] {
+						out[name] = true
+					}
+				}
+			}
+		}
+		return out, found
+	}
+	w, okW := collect("normalizeStructInto")
+	rd, okR := collect("reifyStruct", "validateStruct", "accessField")
+	if !okW || !okR {
+		r.add("R06j", "writer/reader", "field enumeration", "-", Undecided, true, "normalizeStructInto or the struct readers not found")
+		return
+	}
+	same := len(w) == len(rd)
+	for k := range w {
+		if !rd[k] {
+			same = false
+		}
+	}
+	r.Check(same, "R06j", "writer/reader", "field enumeration", "-", "both sides: "+strings.Join(sortedKeys(w), ","),
+		"the writer walks struct fields with ["+strings.Join(sortedKeys(w), ",")+"], the readers with ["+strings.Join(sortedKeys(rd), ",")+"]: the two see different fields for structs with embedded members (promoted fields are visited a second time by one side, under the outer namespace), so a struct does not come back as it went in")
 }
 
 // tagNameRule (R06g): in a struct tag `name,opt,opt` only the parts after the first comma are
